@@ -31,7 +31,7 @@ NA = {
 PARTIAL = {
  "C09": " PARTIAL CLAIM: only the LFDA clause has a simulator dimension (ARPACK start vector, forced non-convergence, fallback chain); Covariance and RCA are sampled fault-free differential checks against the same kind of reference.",
  "C16": " PARTIAL CLAIM: the ordering clause (rejection before any fitting work) and the history clause (calibrate / fit with calibration_params on live handles) carry the simulator dimension; optimality is decided per instance by brute force over all distinct cut-offs and is sampled, not searched.",
- "C20": " PARTIAL CLAIM: seed-reproducibility of 'random' priors/inits under perturbed ambient state and the Cholesky/eigen fallback paths carry the simulator dimension; the remaining clauses are sampled matrix identities. One open known finding (strict-PD test vs eigen-solver noise).",
+ "C20": " PARTIAL CLAIM: seed-reproducibility of 'random' priors/inits under perturbed ambient state and the Cholesky/eigen fallback paths carry the simulator dimension; the remaining clauses are sampled matrix identities. Two open known findings (PSD tolerance vs eigen-solver noise: a singular prior accepted by the strict learners, a singular PSD init rejected by MMC).",
  "C03": " Two open known findings share one root cause with C20's (PSD conversion tolerance vs eigen-solver noise); they are keyed by an observer-computed discriminator.",
  "C15": " One open known finding (SCML's PSD-by-construction matrix rejected within rounding), keyed by an observer-computed discriminator.",
 }
